@@ -904,6 +904,7 @@ def r_boundloop(ctx):
             loop.add(nexts[0].gid)
             # exits: branch nodes in the loop with a successor outside
             bounded = False
+            bounding = []
             for sw in I.all_effects(("SWITCH",)):
                 gid = sw.gid
                 if gid not in loop:
@@ -919,6 +920,11 @@ def r_boundloop(ctx):
                     has_len = any(isinstance(a, tuple) and a and a[0] in ("userlen", "usersize_hint") for a in ats)
                     if has_counter and has_len:
                         bounded = True
+                        bounding.append(gid)
+            # ... or the loop is a counted `for _ in 0..n` over the reported length (it leaves when the range is exhausted)
+            for rn in I.all_effects(("RANGE_NEXT",)):
+                if rn.gid in loop and any(k in repr(rn.d) for k in ("userlen", "usersize_hint")):
+                    bounded = True
             # ... or the iterator polled in the loop is `take(n)` of the user iterator with n the reported length
             for nx in nexts:
                 bd = nx.get("bound")
@@ -944,6 +950,14 @@ def r_boundloop(ctx):
                     res.fail(dp, "bound-not-reserved/%s" % an, "the write loop is bounded by a length reported by a different call of the user iterator's len() than "
                              "the one the room was reserved for: an iterator whose len() is not stable writes over the moved tail", span=span_of_effect(writes[0]))
                     continue
+            if bounded and bounding and not any(I.all_effects(("RANGE_NEXT",)) and rn.gid in loop for rn in I.all_effects(("RANGE_NEXT",))):
+                # the counter test has to come BEFORE each write of the iteration: tested only after the write, an iterator that reports 0 items and
+                # yields some is written once before the first test, and the test `written == reported` then never holds
+                late = [w for w in writes if not every_path_to(I, w.gid, lambda g: g in bounding)]
+                if late:
+                    res.fail(dp, "bound-tested-after-write/%s" % an, "the loop compares the number of written items with the reported length only after writing an "
+                             "item: a replacement iterator that reports fewer items than it yields (0, say) is written past the reserved room", span=span_of_effect(late[0]))
+                    continue
             if not bounded:
                 res.fail(dp, "unbounded-write-loop/%s" % an, "the loop that writes replacement items into storage stops only when the user iterator returns None: "
                          "an iterator yielding more than its len() writes past the reserved space / over the moved tail", span=span_of_effect(writes[0]))
@@ -957,6 +971,31 @@ def r_boundloop(ctx):
             res.ok()
     if found == 0:
         res.coverage_lost("<crate>", "no replacement-iterator write loop found (Splice::drop anchor)")
+    # any other operation that fills storage from a user iterator in a loop: the length it stores afterwards is the number of items written, never a
+    # number the iterator reported (`size_hint`, `len`) - an iterator that yields fewer leaves never-written slots counted as elements
+    hs = set(range_handles(ctx))
+    for fpath, subst, ef, label in entry_points(ctx):
+        f = ctx.fn(fpath)
+        if f is None or f.get("impl_self_ty", {}).get("path") in hs:
+            continue
+        for tt, I in ctx.arms(fpath, subst=subst, entry_facts=ef) or []:
+            nexts = [e for e in I.all_effects(("USER",)) if e["what"] == "iter-next" and _in_cycle(I, e.gid)]
+            writes = [e for e in I.all_effects(("MOVE_INTO", "CLONE_INTO", "WRITE", "COPY")) if _in_cycle(I, e.gid)]
+            if not nexts or not writes:
+                continue
+            an = arm_name(tt)
+            res.inst(sample={"function": fpath, "loop": "user iterator next() + write into storage", "arm": an}, func=fpath)
+            bad = None
+            for ls_ in len_stores(I):
+                v = as_poly(ls_["value"])
+                if any(isinstance(a, tuple) and a and a[0] in ("userlen", "usersize_hint") or (isinstance(a, tuple) and a and a[0] == "fld" and "usersize_hint" in repr(a))
+                       for a in v.atoms()) and not any(isinstance(a, tuple) and a and a[0] == "phi" for a in v.atoms()):
+                    bad = ls_
+            if bad is not None:
+                res.fail(fpath, "len-trusts-reported/%s" % an, "%s stores a length computed from what the iterator reported (%s) after a loop that writes the items it "
+                         "actually yields: an iterator that yields fewer leaves never-written slots counted as elements" % (fpath, bad["value"]), span=span_of_effect(bad))
+            else:
+                res.ok()
     return res
 
 
